@@ -1,0 +1,209 @@
+//go:build verif
+
+package aztec
+
+import (
+	"math/rand"
+
+	"github.com/boombuler/barcode"
+	"github.com/boombuler/barcode/utils"
+)
+
+// Hooks for the /verif proof development.  Add-only; nothing here is compiled
+// without the build tag "verif".
+
+// VerifCharMap returns charMap as built by init(): mode (0 upper, 1 lower,
+// 2 digit, 3 mixed, 4 punct) -> 256 codes (0 = not in the table).
+func VerifCharMap() map[int][]int {
+	res := make(map[int][]int, len(charMap))
+	for m, t := range charMap {
+		res[int(m)] = append([]int(nil), t...)
+	}
+	return res
+}
+
+// VerifLatchTable returns latchTable: from -> to -> (bitcount<<16 | bits).
+func VerifLatchTable() map[int]map[int]int {
+	res := make(map[int]map[int]int, len(latchTable))
+	for a, t := range latchTable {
+		res[int(a)] = make(map[int]int, len(t))
+		for b, v := range t {
+			res[int(a)][int(b)] = v
+		}
+	}
+	return res
+}
+
+// VerifShiftTable returns shiftTable: from -> to -> shift code.
+func VerifShiftTable() map[int]map[int]int {
+	res := make(map[int]map[int]int, len(shiftTable))
+	for a, t := range shiftTable {
+		res[int(a)] = make(map[int]int, len(t))
+		for b, v := range t {
+			res[int(a)][int(b)] = v
+		}
+	}
+	return res
+}
+
+// VerifModeBitCount returns encodingMode.BitCount() for the five modes.
+func VerifModeBitCount() []int {
+	res := make([]int, 5)
+	for m := mode_upper; m <= mode_punct; m++ {
+		res[int(m)] = int(m.BitCount())
+	}
+	return res
+}
+
+// VerifWordSize returns the word_size table; VerifConsts the layer limits.
+func VerifWordSize() []int { return append([]int(nil), word_size...) }
+func VerifConsts() (maxNbBits, maxNbBitsCompact int) {
+	return max_nb_bits, max_nb_bits_compact
+}
+
+func bitsToBools(bl *utils.BitList) []bool {
+	res := make([]bool, bl.Len())
+	for i := range res {
+		res[i] = bl.GetBit(i)
+	}
+	return res
+}
+
+func boolsToBits(bs []bool) *utils.BitList {
+	bl := new(utils.BitList)
+	for _, b := range bs {
+		bl.AddBit(b)
+	}
+	return bl
+}
+
+// VerifHighLevel is highlevelEncode.
+func VerifHighLevel(data []byte) []bool { return bitsToBools(highlevelEncode(data)) }
+
+// VerifStuff is stuffBits.
+func VerifStuff(bits []bool, wordSize int) []bool {
+	return bitsToBools(stuffBits(boolsToBits(bits), wordSize))
+}
+
+// VerifModeMessage is generateModeMessage.
+func VerifModeMessage(compact bool, layers, messageSizeInWords int) []bool {
+	return bitsToBools(generateModeMessage(compact, layers, messageSizeInWords))
+}
+
+// VerifCheckWords is generateCheckWords.
+func VerifCheckWords(bits []bool, totalBits, wordSize int) []bool {
+	return bitsToBools(generateCheckWords(boolsToBits(bits), totalBits, wordSize))
+}
+
+// VerifTotalBitsInLayer is totalBitsInLayer.
+func VerifTotalBitsInLayer(layers int, compact bool) int { return totalBitsInLayer(layers, compact) }
+
+// VerifConfig runs the real Encode and reads the configuration it chose off
+// the symbol: compact iff the module at distance 5 diagonally up-left of the
+// centre is dark (orientation mark of a compact symbol; always light in a
+// full-range symbol), layers from the matrix size, word size from word_size.
+func VerifConfig(data []byte, minECCPercent, userSpecifiedLayers int) (compact bool, layers, wordSize int, err error) {
+	bc, err := Encode(data, minECCPercent, userSpecifiedLayers)
+	if err != nil {
+		return false, 0, 0, err
+	}
+	code := bc.(*aztecCode)
+	c := code.size / 2
+	compact = code.GetBit((c-5)*code.size + (c - 5))
+	if compact {
+		layers = (code.size - 11) / 4
+	} else {
+		for l := 1; l <= max_nb_bits; l++ {
+			base := 14 + l*4
+			if base+1+2*((base/2-1)/15) == code.size {
+				layers = l
+			}
+		}
+	}
+	return compact, layers, word_size[layers], nil
+}
+
+// VerifPlacement probes the real encoder for the data-bit placement of one
+// configuration: it encodes `runs` pseudo-random payloads with an explicit
+// layer request, recomputes the message bits of each with the package's own
+// functions, and matches the per-index bit signatures against the per-module
+// signatures of the resulting symbols.  res[i] = {x, y} of message bit i, or
+// {-1, -1} when the signature of bit i is not unique (constant bits such as
+// the start padding).  ok is false when a payload was refused.
+func VerifPlacement(compact bool, layers int, runs int, seed int64) (res [][2]int, size int, ok bool) {
+	rng := rand.New(rand.NewSource(seed))
+	total := totalBitsInLayer(layers, compact)
+	ws := word_size[layers]
+	n := total / 16
+	if n < 1 {
+		n = 1
+	}
+	req := layers
+	if compact {
+		req = -layers
+	}
+	bitSig := make([][]uint64, total)
+	words := (runs + 63) / 64
+	for i := range bitSig {
+		bitSig[i] = make([]uint64, words)
+	}
+	var cellSig [][]uint64
+	for r := 0; r < runs; r++ {
+		data := make([]byte, n)
+		for i := range data {
+			data[i] = byte(rng.Intn(256))
+		}
+		bc, err := EncodeWithColor(data, 0, req, barcode.ColorScheme16)
+		if err != nil {
+			return nil, 0, false
+		}
+		code := bc.(*aztecCode)
+		size = code.size
+		if cellSig == nil {
+			cellSig = make([][]uint64, size*size)
+			for i := range cellSig {
+				cellSig[i] = make([]uint64, words)
+			}
+		}
+		msg := generateCheckWords(stuffBits(highlevelEncode(data), ws), total, ws)
+		for i := 0; i < total; i++ {
+			if msg.GetBit(i) {
+				bitSig[i][r/64] |= 1 << uint(r%64)
+			}
+		}
+		for x := 0; x < size; x++ {
+			for y := 0; y < size; y++ {
+				if code.GetBit(x*size + y) {
+					cellSig[x*size+y][r/64] |= 1 << uint(r%64)
+				}
+			}
+		}
+	}
+	key := func(s []uint64) string {
+		b := make([]byte, 0, 8*len(s))
+		for _, v := range s {
+			for k := 0; k < 8; k++ {
+				b = append(b, byte(v>>uint(8*k)))
+			}
+		}
+		return string(b)
+	}
+	cells := map[string][]int{}
+	for i, s := range cellSig {
+		cells[key(s)] = append(cells[key(s)], i)
+	}
+	bitsBySig := map[string]int{}
+	for _, s := range bitSig {
+		bitsBySig[key(s)]++
+	}
+	res = make([][2]int, total)
+	for i, s := range bitSig {
+		k := key(s)
+		if c := cells[k]; len(c) == 1 && bitsBySig[k] == 1 {
+			res[i] = [2]int{c[0] / size, c[0] % size}
+		} else {
+			res[i] = [2]int{-1, -1}
+		}
+	}
+	return res, size, true
+}
